@@ -9,6 +9,9 @@ package main
 //   case N late     a subscription that arrives while the swamp is being summoned: ops: spawn T set K V (the first request
 //                   on a fresh swamp; parks at hook swamp.new, inside SummonSwamp's creation of the instance) | sub I | go T
 //                   replies: `T@loading`, `ok`, `T done st=<STATUS> sI=[ev…]`
+//   case N drain    an auto-destroy that drains an in-flight insert, with a subscriber: ops: sub I | set K V |
+//                   spawn T set K V (parks at gw.set.vigil) | spawn T del K (parks at destroy.draining) | go T
+//                   replies: `T@<point> sI=[ev…]`, `T done st=<STATUS> sI=[ev…]`
 //   case N stress P op: stress W K N  (W writers × N increments over K keys, ungated stream);
 //                   P = p1 (write interval 1 s) | p0 (immediate write: SaveFunction releases the guard itself)
 //
@@ -45,7 +48,8 @@ import (
 
 func init() { Register("C19", Domain{Gen: c19Gen, Run: c19Run}) }
 
-const c19StepTimeout = 5 * time.Second
+// a wait ends on its event; the limit only matters for a request that really hangs (scaled by HX_TIMEOUT_SCALE)
+var c19StepTimeout = HxScale(12 * time.Second)
 
 // ---------------------------------------------------------------- generator
 
@@ -62,6 +66,11 @@ func c19Gen(rng *rand.Rand, tier string, w *bufio.Writer) {
 	c++
 	// records that carry client-supplied CreatedAt / UpdatedAt (year 2001): the event time is still the time of the change
 	fmt.Fprintf(w, "case %d seq\nsub 1\nsetm a x\nsetm a y\nset a z\nset b x\ndel a\nsetm a q\nreload\nset a r\n", c)
+	c++
+	// a claim through ShiftExpiredTreasures is a delete like any other: the subscriber gets its DELETED event
+	fmt.Fprintf(w, "case %d seq\nsub 1\nset a x\nsete e y\nshifte e\nset a z\n", c)
+	c++
+	fmt.Fprintf(w, "case %d drain\nsub 1\nset a x\nspawn W set b y\nspawn D del a\ngo W\ngo D\nset c z\n", c)
 	c++
 	fmt.Fprintf(w, "case %d late\nspawn A set a x\nsub 1\ngo A\n", c)
 	c++
@@ -202,10 +211,56 @@ type c19State struct {
 	maxInside int32
 	ths       []*c19Thread
 	dead      bool
+	dth       map[string]*c19DThread // mode drain
 	lateGate  chan struct{}
 	lateDone  chan string
 	lateT0    int64
 	lateHit   atomic.Bool
+}
+
+type c19DThread struct {
+	name  string
+	parks map[string]bool
+	gate  chan struct{}
+	done  chan string
+	fin   bool
+}
+
+// collect renders what every subscriber received since the last op
+func (st *c19State) collect(t0 int64) string {
+	var ids []int
+	for i := range st.subs {
+		ids = append(ids, i)
+	}
+	sort.Ints(ids)
+	t1 := time.Now().UnixNano()
+	var b strings.Builder
+	for _, i := range ids {
+		var evs []string
+		for _, m := range st.subs[i].take() {
+			evs = append(evs, c19Event(m, t0, t1))
+		}
+		fmt.Fprintf(&b, " s%d=[%s]", i, strings.Join(evs, ";"))
+	}
+	return b.String()
+}
+
+// dwait waits until thread t parks or finishes
+func (st *c19State) dwait(t *c19DThread, t0 int64) string {
+	deadline := time.After(c19StepTimeout)
+	for {
+		select {
+		case ev := <-st.events:
+			if ev.thread == t.name && t.parks[ev.name] {
+				return t.name + "@" + ev.name + st.collect(t0)
+			}
+		case r := <-t.done:
+			t.fin = true
+			return t.name + " done st=" + r + st.collect(t0)
+		case <-deadline:
+			return t.name + " stuck"
+		}
+	}
 }
 
 func (st *c19State) next(d time.Duration) (c19Ev, bool) {
@@ -382,6 +437,23 @@ func (st *c19State) seqOp(f []string) string {
 			return "NOT_FOUND"
 		}
 		return "DELETED"
+	case "sete":
+		// a record that is already expired (for shifte)
+		past := timestamppb.New(time.Now().Add(-time.Hour))
+		v := f[2]
+		resp, err := gw.Set(ctx, &hydrapb.SetRequest{Swamps: []*hydrapb.SwampRequest{{IslandID: 1, SwampName: st.swamp, CreateIfNotExist: true, Overwrite: true,
+			KeyValues: []*hydrapb.KeyValuePair{{Key: f[1], StringVal: &v, ExpiredAt: past}}}}})
+		if err != nil || resp == nil || len(resp.GetSwamps()) != 1 || len(resp.GetSwamps()[0].GetKeysAndStatuses()) != 1 {
+			return "ERR"
+		}
+		return c19Status(resp.GetSwamps()[0].GetKeysAndStatuses()[0].GetStatus())
+	case "shifte":
+		// the claim path of ShiftExpiredTreasures (selection pass + re-validating delete), not ShiftByKeys
+		resp, err := gw.ShiftExpiredTreasures(ctx, &hydrapb.ShiftExpiredTreasuresRequest{IslandID: 1, SwampName: st.swamp, HowMany: 1})
+		if err != nil || resp == nil || len(resp.GetTreasures()) != 1 || resp.GetTreasures()[0].GetKey() != f[1] {
+			return "NOT_FOUND"
+		}
+		return "DELETED"
 	case "get":
 		_, _ = gw.Get(ctx, &hydrapb.GetRequest{Swamps: []*hydrapb.GetSwamp{{IslandID: 1, SwampName: st.swamp, Keys: []string{f[1]}}}})
 		return "-"
@@ -453,7 +525,7 @@ func (st *c19State) spawn(tn, k, v string) string {
 					continue // nobody inside: it must enter
 				}
 				// somebody is inside: it either enters at once (no mutex) or blocks for good
-				tm := time.After(200 * time.Millisecond)
+				tm := time.After(HxScale(300 * time.Millisecond))
 			wait:
 				for {
 					select {
@@ -524,7 +596,7 @@ func (st *c19State) stress(writers, nkeys, per int) string {
 	go func() { wg.Wait(); close(fin) }()
 	select {
 	case <-fin:
-	case <-time.After(60 * time.Second):
+	case <-time.After(HxScale(120 * time.Second)):
 		st.dead = true
 		return "timeout"
 	}
@@ -581,7 +653,7 @@ func c19Run(in *bufio.Scanner, w *bufio.Writer) {
 	rig.Settings.RegisterPattern(name.New().Sanctuary("c19z").Realm("*").Swamp("*"), false, 3600,
 		&settings.FileSystemSettings{WriteIntervalSec: 0, MaxFileSizeByte: 8192, UseChroniclerV2: true})
 	st := &c19State{rig: rig, runTag: strconv.FormatInt(time.Now().UnixNano()%1000000, 36), subs: map[int]*c19Stream{},
-		threads: newCCThreads(), events: make(chan c19Ev, 4096)}
+		threads: newCCThreads(), events: make(chan c19Ev, 4096), dth: map[string]*c19DThread{}}
 	verifhook.SetHandler(func(nm string, args ...any) {
 		switch nm {
 		case "events.subscribed":
@@ -590,6 +662,15 @@ func c19Run(in *bufio.Scanner, w *bufio.Writer) {
 				a = args[0]
 			}
 			st.events <- c19Ev{name: nm, arg: a}
+		case "gw.set.vigil", "destroy.draining":
+			if st.mode == "drain" {
+				if th := st.threads.Current(); th != "" {
+					if t := st.dth[th]; t != nil && t.parks[nm] {
+						st.events <- c19Ev{thread: th, name: nm}
+						<-t.gate
+					}
+				}
+			}
 		case "swamp.new":
 			if st.mode == "late" && st.threads.Current() != "" && st.lateHit.CompareAndSwap(false, true) {
 				st.events <- c19Ev{thread: st.threads.Current(), name: nm}
@@ -609,6 +690,15 @@ func c19Run(in *bufio.Scanner, w *bufio.Writer) {
 		if st.mode == "conc" && st.gated.Load() {
 			st.drain()
 		}
+		for _, t := range st.dth {
+			if !t.fin {
+				select {
+				case t.gate <- struct{}{}:
+				default:
+				}
+			}
+		}
+		st.dth = map[string]*c19DThread{}
 		if st.mode == "late" && st.lateGate != nil {
 			select {
 			case st.lateGate <- struct{}{}:
@@ -668,10 +758,43 @@ func c19Run(in *bufio.Scanner, w *bufio.Writer) {
 			continue
 		}
 		if st.dead {
-			fmt.Fprintln(w, "skip")
+			fmt.Fprintln(w, "err skip")
 			continue
 		}
 		switch {
+		case st.mode == "drain" && f[0] == "spawn" && ((len(f) == 5 && f[2] == "set") || (len(f) == 4 && f[2] == "del")) && st.dth[f[1]] == nil:
+			t := &c19DThread{name: f[1], parks: map[string]bool{}, gate: make(chan struct{}), done: make(chan string, 1)}
+			var run func() string
+			if f[2] == "set" {
+				t.parks["gw.set.vigil"] = true
+				k, v := f[3], f[4]
+				run = func() string { return st.doSet(k, v) }
+			} else {
+				t.parks["destroy.draining"] = true
+				ff := []string{"del", f[3]}
+				run = func() string { return st.seqOp(ff) }
+			}
+			st.dth[t.name] = t
+			t0 := time.Now().UnixNano()
+			go func() {
+				st.threads.Register(t.name)
+				defer st.threads.Unregister()
+				t.done <- run()
+			}()
+			fmt.Fprintln(w, st.dwait(t, t0))
+		case st.mode == "drain" && f[0] == "go" && len(f) == 2:
+			t := st.dth[f[1]]
+			if t == nil || t.fin {
+				fmt.Fprintln(w, "bad-op")
+				break
+			}
+			t0 := time.Now().UnixNano()
+			select {
+			case t.gate <- struct{}{}:
+				fmt.Fprintln(w, st.dwait(t, t0))
+			case <-time.After(c19StepTimeout):
+				fmt.Fprintln(w, t.name+" stuck")
+			}
 		case st.mode == "late" && f[0] == "spawn" && len(f) == 5 && f[2] == "set":
 			if st.lateGate != nil {
 				fmt.Fprintln(w, "bad-op")
@@ -736,7 +859,7 @@ func c19Run(in *bufio.Scanner, w *bufio.Writer) {
 				fmt.Fprintf(&b, " s%d=[%s]", i, strings.Join(evs, ";"))
 			}
 			fmt.Fprintln(w, b.String())
-		case (st.mode == "seq" || st.mode == "late") && (f[0] == "sub" || f[0] == "unsub") && len(f) == 2:
+		case (st.mode == "seq" || st.mode == "late" || st.mode == "drain") && (f[0] == "sub" || f[0] == "unsub") && len(f) == 2:
 			i, err := strconv.Atoi(f[1])
 			if err != nil {
 				fmt.Fprintln(w, "bad-op")
@@ -747,7 +870,7 @@ func c19Run(in *bufio.Scanner, w *bufio.Writer) {
 			} else {
 				fmt.Fprintln(w, st.unsubscribe(i))
 			}
-		case st.mode == "seq" && ((len(f) == 3 && (f[0] == "set" || f[0] == "setm" || f[0] == "inc")) || (len(f) == 2 && (f[0] == "del" || f[0] == "shift" || f[0] == "get")) || (len(f) == 1 && f[0] == "reload")):
+		case (st.mode == "seq" || st.mode == "drain") && ((len(f) == 3 && (f[0] == "set" || f[0] == "setm" || f[0] == "sete" || f[0] == "inc")) || (len(f) == 2 && (f[0] == "del" || f[0] == "shift" || f[0] == "shifte" || f[0] == "get")) || (len(f) == 1 && f[0] == "reload")):
 			var ids []int
 			for i := range st.subs {
 				ids = append(ids, i)
